@@ -732,12 +732,16 @@ theorem declLoop_sim {F : Prop} {p : Nat} (cs : List (Nat × Nat)) (t u : Tokeni
     have rb := readByte_sim c (e.back (fun h => by simp [declLoop, h]))
     simp only [declLoop, rb.1.err, rb.2] at e ⊢
     by_cases h1 : u.readByte.1.err = true
-    · sif [h1]; exact ⟨rb.1.dataE_rawE, by tr⟩
+    · sif [h1]
+      refine ⟨?_, by tr⟩
+      fin rb.1.dataE_rawE
     · sif [h1] at e ⊢
       split
       · refine ⟨?_, by tr⟩
-        exact ⟨rb.1.size, rb.1.agree, rb.1.full, rb.1.rawS, rb.1.dataS, rb.1.dataS, rb.1.dataE, rb.1.err, rb.1.rawTag,
-          rb.1.cdata, rb.1.panic, rb.1.hang, rb.1.utf8⟩
+        have rc : Core F p { t.readByte.1 with rawE := t.readByte.1.dataS } { u.readByte.1 with rawE := u.readByte.1.dataS } :=
+          ⟨rb.1.size, rb.1.agree, rb.1.full, rb.1.rawS, rb.1.dataS, rb.1.dataS, rb.1.dataE, rb.1.err, rb.1.rawTag,
+            rb.1.cdata, rb.1.panic, rb.1.hang, rb.1.utf8⟩
+        fin rc
       · rename_i h2
         sif [h2] at e
         exact ih t.readByte.1 u.readByte.1 rb.1 e
@@ -771,8 +775,12 @@ theorem readDocType_sim {F : Prop} {p : Nat} (b t u : Tokenizer) (c : Core F p t
     by_cases h2 : lu.1.skipWhiteSpace.err = true
     · sif [h2]
       refine ⟨?_, by tr⟩
-      exact ⟨sk.size, sk.agree, sk.full, sk.rawS, sk.rawE, sk.rawE, sk.rawE, sk.err, sk.rawTag, sk.cdata, sk.panic,
-        sk.hang, sk.utf8⟩
+      have rc : Core F p { lt.1.skipWhiteSpace with dataS := lt.1.skipWhiteSpace.rawE, dataE := lt.1.skipWhiteSpace.rawE }
+          { lu.1.skipWhiteSpace with dataS := lu.1.skipWhiteSpace.rawE, dataE := lu.1.skipWhiteSpace.rawE } :=
+        ⟨sk.size, sk.agree, sk.full, sk.rawS, sk.rawE, sk.rawE, sk.rawE, sk.err, sk.rawTag, sk.cdata, sk.panic,
+          sk.hang, sk.utf8⟩
+      have hske := sk.err
+      fin rc
     · sif [h2] at e ⊢
       exact ⟨readUntilCloseAngle_sim _ _ sk ska.ok e, by tr⟩
   · have hl' : lu.2 = false := by simpa using hl
@@ -882,7 +890,9 @@ theorem markupGo_sim {F : Prop} {p : Nat} (t u : Tokenizer) (c : Core F p t u) (
   unfold markupGo at e ⊢
   simp only [rb.1.err, rb.2] at e ⊢
   by_cases h1 : u.readByte.1.err = true
-  · sif [h1]; exact ⟨rb.1.dataE_rawE, by tr⟩
+  · sif [h1]
+    refine ⟨?_, by tr⟩
+    fin rb.1.dataE_rawE
   · sif [h1] at e ⊢
     have e2 : EO F u.readByte.1.readByte.1 := e.back (fun h => by
       have h3 := readComment_err _ h
@@ -891,7 +901,9 @@ theorem markupGo_sim {F : Prop} {p : Nat} (t u : Tokenizer) (c : Core F p t u) (
     have rb2 := readByte_sim rb.1 e2
     simp only [rb2.1.err, rb2.2] at e ⊢
     by_cases h3 : u.readByte.1.readByte.1.err = true
-    · sif [h3]; exact ⟨rb2.1.dataE_rawE, by tr⟩
+    · sif [h3]
+      refine ⟨?_, by tr⟩
+      fin rb2.1.dataE_rawE
     · sif [h3] at e ⊢
       have s1 := readByte_succ h1
       have s2 := readByte_succ h3
@@ -910,6 +922,72 @@ theorem readMarkupDeclaration_sim {F : Prop} {p : Nat} (t u : Tokenizer) (c : Co
     (readMarkupDeclaration t).2 = (readMarkupDeclaration u).2 := by
   unfold readMarkupDeclaration at e ⊢
   exact markupGo_sim _ _ c.dataS_rawE ⟨ok.le, ok.panic, ok.hang, ok.utf8⟩ h2 rfl e
+
+/-! ### tags (the attribute spans themselves are not part of `Core`) -/
+
+theorem tagNameGo_sim {F : Prop} {p : Nat} (t u : Tokenizer) (c : Core F p t u) (ok : Ok u)
+    (e : EO F (tagNameGo u)) : Core F p (tagNameGo t) (tagNameGo u) := by
+  fun_induction tagNameGo u generalizing t
+  all_goals (try simp +zetaDelta only at *)
+  case case1 =>
+    have rb := readByte_sim c e
+    conv => arg 3; rw [tagNameGo]
+    sif [rb.1.err, rb.2, *]
+    fin rb.1.dataE_rawE
+  case case2 herr _ =>
+    have rb := readByte_sim c (by have := e; simp only [EO, setDataEndBack_err] at this; exact this)
+    conv => arg 3; rw [tagNameGo]
+    sif [rb.1.err, rb.2, *]
+    exact setDataEndBack_sim 1 rb.1 (readByte_pos herr)
+  case case3 herr _ _ =>
+    have rb := readByte_sim c (by have := e; simp only [EO, unread_err] at this; exact this)
+    conv => arg 3; rw [tagNameGo]
+    sif [rb.1.err, rb.2, *]
+    fin (unread_sim 1 rb.1 (readByte_pos herr)).dataE_rawE
+  case case4 ih =>
+    have rb := readByte_sim c (e.back (tagNameGo_err _))
+    conv => arg 3; rw [tagNameGo]
+    sif [rb.1.err, rb.2, *]
+    exact ih _ rb.1 (readByte_adv ok).ok e
+
+theorem readTagName_sim {F : Prop} {p : Nat} (t u : Tokenizer) (c : Core F p t u) (ok : Ok u) (h1 : 1 ≤ u.rawE)
+    (e : EO F (readTagName u)) : Core F p (readTagName t) (readTagName u) := by
+  unfold readTagName at e ⊢
+  have hu : ¬ u.rawE = 0 := by omega
+  have ht : ¬ t.rawE = 0 := by have := c.rawE; omega
+  sif [hu, ht] at e ⊢
+  have c0 : Core F p { t with dataS := t.rawE - 1 } { u with dataS := u.rawE - 1 } :=
+    ⟨c.size, c.agree, c.full, c.rawS, c.rawE, by simp only; have := c.rawE; omega, c.dataE, c.err, c.rawTag, c.cdata,
+      c.panic, c.hang, c.utf8⟩
+  exact tagNameGo_sim _ _ c0 ⟨ok.le, ok.panic, ok.hang, ok.utf8⟩ e
+
+theorem attrKeyGo_sim {F : Prop} {p : Nat} (t u : Tokenizer) (c : Core F p t u) (ok : Ok u)
+    (e : EO F (attrKeyGo u)) : Core F p (attrKeyGo t) (attrKeyGo u) := by
+  fun_induction attrKeyGo u generalizing t
+  all_goals (try simp +zetaDelta only at *)
+  case case1 =>
+    have rb := readByte_sim c e
+    conv => arg 3; rw [attrKeyGo]
+    sif [rb.1.err, rb.2, *]
+    fin (rb.1.congr (t' := { t.readByte.1 with pkE := t.readByte.1.rawE }) (by lrfl) (by lrfl))
+  case case2 herr _ h0 => have := readByte_pos herr; omega
+  case case3 herr _ h0 =>
+    have rb := readByte_sim c e
+    have ht0 : ¬ t.readByte.1.rawE = 0 := by have := rb.1.rawE; omega
+    conv => arg 3; rw [attrKeyGo]
+    sif [rb.1.err, rb.2, ht0, *]
+    fin (rb.1.congr (t' := { t.readByte.1 with pkE := t.readByte.1.rawE - 1 }) (by lrfl) (by lrfl))
+  case case4 herr _ _ =>
+    have rb := readByte_sim c (by have := e; simp only [EO, unread_err] at this; exact this)
+    conv => arg 3; rw [attrKeyGo]
+    sif [rb.1.err, rb.2, *]
+    fin ((unread_sim 1 rb.1 (readByte_pos herr)).congr
+      (t' := { t.readByte.1.unread 1 with pkE := (t.readByte.1.unread 1).rawE }) (by lrfl) (by lrfl))
+  case case5 ih =>
+    have rb := readByte_sim c (e.back (attrKeyGo_err _))
+    conv => arg 3; rw [attrKeyGo]
+    sif [rb.1.err, rb.2, *]
+    exact ih _ rb.1 (readByte_adv ok).ok e
 
 end Tokenizer
 end Rio.Html
